@@ -145,6 +145,43 @@ theorem C09_heap_flat_crossover_refines {h : Heap} {g1 g2 : Nat} {p1 p2 : List I
   · simp [List.getElem?_append_left hgl2, hg2]
   · rw [List.append_assoc, List.getElem?_append_left hal2, ha2]
 
+/-! refinement of the structured operators and of the mapping (value level: `Model/Linear.lean` -- `sgeMutate` / `dsgeMutate` replace
+one gene of one list, `sgeCrossoverWith` / `dsgeCrossoverWith` choose per key of parent 1, `mapDSGE` appends the genes it draws) -/
+
+/-- SGE / dynamic-SGE `mutate`: the new genotype object reads like its parent with gene `r` of list number `k` replaced (exactly
+like its parent when no gene was chosen), and the parent reads as before -/
+theorem C09_heap_struct_mutate_refines {h : Heap} (s : Sep h) {g : Nat} (hg : g < h.genos.length) (choice : Option (Nat × Nat × Int)) :
+    (structMutate h g choice).view h.genos.length =
+      (match choice with
+       | none => h.view g
+       | some (k, r, v) => (h.view g).modify k (fun x => (x.1, x.2.set r v))) ∧
+    (structMutate h g choice).view g = h.view g :=
+  ⟨structMutate_view h g (s.valid_genoAt g) choice, (structMutate_fresh h g choice).view_eq s hg⟩
+
+/-- SGE / dynamic-SGE `crossover`: over the keys of parent 1, one mask bit per key, child 1 reads parent 1's genes where the bit
+is set and parent 2's (`[]` for a key parent 2 lacks) where it is not, child 2 the other way round; both parents read as before -/
+theorem C09_heap_struct_crossover_refines {h : Heap} (s : Sep h) {g1 g2 : Nat} (h1 : g1 < h.genos.length) (h2 : g2 < h.genos.length)
+    (mask : List Bool) :
+    let km := ((h.genoAt g1).map (·.1)).zip mask
+    (structCrossover h g1 g2 mask).view h.genos.length =
+      km.map (fun e => (e.1, if e.2 then rd h (h.genoAt g1) e.1 else rd h (h.genoAt g2) e.1)) ∧
+    (structCrossover h g1 g2 mask).view (h.genos.length + 1) =
+      km.map (fun e => (e.1, if e.2 then rd h (h.genoAt g2) e.1 else rd h (h.genoAt g1) e.1)) ∧
+    (structCrossover h g1 g2 mask).view g1 = h.view g1 ∧ (structCrossover h g1 g2 mask).view g2 = h.view g2 := by
+  intro km
+  obtain ⟨a, b⟩ := structCrossover_view h g1 g2 (s.valid_genoAt g1) (s.valid_genoAt g2) mask
+  exact ⟨a, b, (structCrossover_fresh h g1 g2 mask).view_eq s h1, (structCrossover_fresh h g1 g2 mask).view_eq s h2⟩
+
+/-- dynamic-SGE mapping: the mapped genotype reads like before with the appended genes added to the lists of their keys and new keys
+added at the end, in the order the mapping met them; every other genotype reads as before -/
+theorem C09_heap_dsge_map_refines {h : Heap} (s : Sep h) {g : Nat} (hg : g < h.genos.length) (ext : List (Nat × List Int)) :
+    (dsgeMap h g ext).view g = ext.foldl viewExtend (h.view g) ∧
+    ∀ g', g' ≠ g → (dsgeMap h g ext).view g' = h.view g' :=
+  ⟨dsgeMap_view s hg ext, fun _ hne => dsgeMap_frame s hne ext⟩
+
+example : viewExtend [(7, [1, 2]), (8, [])] (7, [6]) = [(7, [1, 2, 6]), (8, [])] := by decide
+example : viewExtend [(7, [1, 2]), (8, [])] (5, [0, 0]) = [(7, [1, 2]), (8, []), (5, [0, 0])] := by decide
+
 /-! non-vacuity: a history with every kind of operation; the mapped genotype (#2) grows, its parent (#0) and its sibling
 do not, nothing is shared -/
 def demoOps : List Op :=
